@@ -2,7 +2,7 @@
 """WorkChains that hand futures and child processes to the context (used by C10 and by part (ii) of C06).
 
 A unit is ``(spec, listener_script)`` with ``spec = (items, how, reassign[, shape])``:
-    items     tuple of (kind, outcome): kind 'gate' (a loop future completed by the environment), 'done' (a loop future
+    items     tuple of (kind, outcome): kind 'same' (the previous item again, under another key), 'gate' (a loop future completed by the environment), 'done' (a loop future
               that is already resolved when it is handed over) or 'child' (a process launched from the step, which waits
               for its own gate); outcome 'ok' | 'exc' | 'kill' (children only) | 'cancel' (a future that gets cancelled; a
               child that is killed by cancelling its future)
@@ -72,6 +72,8 @@ def make_chain(spec: tuple) -> type:
         for i, (kind, outcome) in enumerate(items):
             if kind == 'gate':
                 handles[f'k{i}'] = env.gate(self, i)
+            elif kind == 'same':
+                handles[f'k{i}'] = handles[f'k{i - 1}']  # the previous item once more, under a key of its own
             elif kind == 'done':
                 fut = env.gate(self, i)
                 env.complete_now(i)
@@ -229,5 +231,8 @@ class WcWorld(ctl.World):
 def expected_values(world: WcWorld) -> Dict[str, Any]:
     out = {}
     for i, (kind, outcome) in enumerate(world.items):
-        out[f'k{i}'] = f'g{i}' if kind in ('gate', 'done') else {'res': f'c{i}'}
+        if kind == 'same':
+            out[f'k{i}'] = out[f'k{i - 1}']
+        else:
+            out[f'k{i}'] = f'g{i}' if kind in ('gate', 'done') else {'res': f'c{i}'}
     return out
